@@ -10,6 +10,18 @@ import cert
 import common
 import gen_specs
 
+MANIFEST = dict(
+    text='Theorems (props/C16.v, 25) about Coq definitions over R that py2coq regenerates from rambgood.py, hookeslaw.py and '
+         'true_stress_strain.py on every run: Ramberg-Osgood strain odd / strictly increasing / bijective (exact inverse exists and is unique), '
+         'residual-to-root bound, compliance = derivative (Coquelicot is_derive), modulus reciprocal, Masing doubling, lower branch meets curve; '
+         'Hooke 1D/2D/3D round trips, plane strain/stress = 3D at zero out-of-plane strain/stress, G and K; true stress/strain inverses. '
+         'A changed formula breaks a proof; per-run interval certificates (kernel-checked, CoqInterval) tie the generated model to the '
+         'implementation\'s float outputs, Newton inversion by residual certificate.',
+    note=common.TB_NOTE + 'py2coq translator and its whitelist; CoqInterval; float rounding and scipy.optimize.newton are outside the theorems '
+                          '(solver output certified per sample); strains restricted to <= 8 % (beyond, scipy Newton may not converge in 50 iterations).',
+    technique='Coq proof over py2coq-generated real-valued model + CoqInterval certificates',
+    design='6/C16')
+
 GEN = ['GenHooke', 'GenRambgood', 'GenTrueStressStrain']
 REQ = ['From PLgen Require Import GenHooke GenRambgood GenTrueStressStrain.']
 UNFOLD = ['ro_lower_hysteresis', 'ro_delta_strain', 'ro_tangential_modulus', 'ro_tangential_compliance', 'ro_strain',
